@@ -17,6 +17,7 @@ package main
 import (
 	"fmt"
 	"go/types"
+	"path/filepath"
 	"sort"
 	"strings"
 
@@ -132,6 +133,7 @@ func checkC18(p *Prog, r *Report) {
 	c18Immutable(p, r)
 	c18Codec(p, r)
 	c15Cow(p, r, "C18")
+	c18Belief(p, r)
 }
 
 func c18Types(p *Prog, r *Report) {
@@ -228,4 +230,150 @@ func c18Codec(p *Prog, r *Report) {
 		}
 	}
 	r.check(len(bad) == 0 && n >= 2, rule, "ClientConn.codec", p.Pos(f.Pos()), fmt.Sprintf("%d accesses", n), strings.Join(dedupe(bad), " || "))
+}
+
+// c18Belief: the discipline the code itself believes in, for fields not listed in
+// the frozen table: if a field of a struct that owns a mutex is written (after
+// construction) with that mutex held somewhere, then every other access after
+// construction holds it too (writes exclusively).  Narrowing a critical section,
+// or adding an unlocked reader of a locked field, is caught for new fields as well.
+var beliefExceptions = map[string]string{}
+
+func isMutexType(t types.Type) bool {
+	if pt, ok := t.(*types.Pointer); ok {
+		t = pt.Elem()
+	}
+	s := types.TypeString(t, nil)
+	return s == "sync.Mutex" || s == "sync.RWMutex"
+}
+
+func isConcurrencySafeType(t types.Type) bool {
+	if pt, ok := t.(*types.Pointer); ok {
+		t = pt.Elem()
+	}
+	if _, ok := t.Underlying().(*types.Chan); ok {
+		return true
+	}
+	s := types.TypeString(t, nil)
+	return strings.HasPrefix(s, "sync.") || strings.HasPrefix(s, "sync/atomic.") || s == "context.Context" || s == "context.CancelFunc"
+}
+
+func c18Belief(p *Prog, r *Report) {
+	const rule = "C18.lock-consistency"
+	r.Rule(rule, "a field that is accessed under a mutex of its own struct in at least two functions after construction, one of them writing it, is accessed under that mutex everywhere after construction (writes exclusively): the locking the code declares for a field is applied at every access, for fields outside the frozen table too")
+	la := lockAnalyse(p)
+	fns := p.ScopedFuncs("proxy", "proxycore", "astra")
+	inTable := map[string]bool{}
+	for _, g := range guardTable {
+		inTable[g.typ+"."+g.field] = true
+	}
+	nfields, nguarded := 0, 0
+	for _, pkgName := range []string{"proxy", "proxycore", "astra"} {
+		pkg := p.Pkg(pkgName)
+		scope := pkg.Pkg.Scope()
+		names := scope.Names()
+		sort.Strings(names)
+		for _, tn := range names {
+			obj, ok := scope.Lookup(tn).(*types.TypeName)
+			if !ok {
+				continue
+			}
+			st, ok := obj.Type().Underlying().(*types.Struct)
+			if !ok {
+				continue
+			}
+			if _, ex := excludedFiles[filepath.Base(p.Fset.Position(obj.Pos()).Filename)]; ex {
+				continue
+			}
+			var locks []*types.Var
+			for i := 0; i < st.NumFields(); i++ {
+				if isMutexType(st.Field(i).Type()) {
+					locks = append(locks, st.Field(i))
+				}
+			}
+			if len(locks) == 0 {
+				continue
+			}
+			for i := 0; i < st.NumFields(); i++ {
+				f := st.Field(i)
+				if isMutexType(f.Type()) || isConcurrencySafeType(f.Type()) {
+					continue
+				}
+				nfields++
+				var accs []fieldAccess
+				for _, acc := range fieldAccesses(fns, f) {
+					if al, ok := acc.Base.(*ssa.Alloc); ok && al.Parent() == acc.Fn {
+						continue // construction
+					}
+					accs = append(accs, acc)
+				}
+				for _, lock := range locks {
+					var witness string
+					lockedIn := map[*ssa.Function]bool{}
+					for _, acc := range accs {
+						held := la.mustAt[acc.Instr][lock]
+						if held != "" {
+							for _, a := range lockAcquirers(p, la, acc.Instr, lock, 4) {
+								lockedIn[a] = true
+							}
+						}
+						if acc.Write && held == "W" && witness == "" {
+							witness = fmt.Sprintf("%s (%s in %s)", p.Pos(acc.Instr.Pos()), acc.Kind, acc.Fn.Name())
+						}
+					}
+					// a field locked in a single function is a set-once initialisation
+					// (published before its readers exist): ordering this rule cannot judge
+					if witness == "" || len(lockedIn) < 2 {
+						continue
+					}
+					nguarded++
+					key := tn + "." + f.Name() + "~" + lock.Name()
+					var bad []string
+					for _, acc := range accs {
+						exk := fmt.Sprintf("%s.%s@%s", tn, f.Name(), acc.Fn.Name())
+						if _, ok := beliefExceptions[exk]; ok {
+							continue
+						}
+						if _, ok := guardExceptions[exk]; ok {
+							continue
+						}
+						if _, ok := guardExceptions[exk+":read"]; ok && !acc.Write {
+							continue
+						}
+						held := la.mustAt[acc.Instr][lock]
+						switch {
+						case strings.HasPrefix(acc.Kind, "addr-"):
+							bad = append(bad, fmt.Sprintf("%s: address of the field escapes in %s (%s)", p.Pos(acc.Instr.Pos()), acc.Fn.Name(), acc.Kind))
+						case held == "":
+							bad = append(bad, fmt.Sprintf("%s: %s in %s without holding %s", p.Pos(acc.Instr.Pos()), acc.Kind, acc.Fn.Name(), lock.Name()))
+						case acc.Write && held != "W":
+							bad = append(bad, fmt.Sprintf("%s: %s in %s while holding %s only in read mode", p.Pos(acc.Instr.Pos()), acc.Kind, acc.Fn.Name(), lock.Name()))
+						}
+					}
+					r.check(len(bad) == 0, rule, key, p.Pos(f.Pos()), fmt.Sprintf("%d accesses after construction; written under %s at %s", len(accs), lock.Name(), witness), strings.Join(dedupe(bad), " || "))
+				}
+			}
+		}
+	}
+	r.count("belief_fields_examined", nfields)
+	r.count("belief_fields_guarded", nguarded)
+}
+
+// lockAcquirers returns the functions whose own critical section of lock covers the
+// instruction: the enclosing function when it acquires the lock itself, otherwise the
+// callers that enter it with the lock held (followed through static call sites).
+func lockAcquirers(p *Prog, la *lockAnalysis, in ssa.Instruction, lock *types.Var, depth int) []*ssa.Function {
+	fn := in.Parent()
+	if la.mustEntry[fn][lock] == "" || depth == 0 {
+		return []*ssa.Function{rootFn(fn)}
+	}
+	var out []*ssa.Function
+	sites, _ := p.staticCallSites(fn)
+	for _, cs := range sites {
+		out = append(out, lockAcquirers(p, la, cs, lock, depth-1)...)
+	}
+	if len(out) == 0 {
+		out = append(out, rootFn(fn))
+	}
+	return out
 }
